@@ -175,6 +175,20 @@ class D16(Extra):
             s1 = [p, q]
             s2 = [p + [[end + 4, 3]], q + [[end + 4, rng.randint(5, 9)], [end + 12, 2]]]
             out.append({'f': f, 'nv': 2, 'sigs': s1, 'sigs2': s2, 'n': 4})
+        # bounded since with a positive lower bound: both operands hold until the end of w1, the left one collapses right after it
+        # (a past operator must not read the extension)
+        for _ in range(n // 4):
+            a = rng.choice([2, 4])
+            b = a + rng.choice([2, 4])
+            f = ('sincet', a, b, ('pred', 'geq', ('var', 0), ('const', 0)), ('pred', 'geq', ('var', 1), ('const', 0)))
+            if rng.random() < 0.3:
+                f = (rng.choice(['and', 'or']), f, ('pred', 'leq', ('var', 1), ('const', 9)))
+            end = rng.choice([8, 12, 16])
+            p = [[0, rng.randint(1, 5)], [end, rng.randint(1, 5)]]
+            q = [[0, rng.randint(1, 4)], [rng.choice([2, 4]), rng.randint(1, 4)], [end, rng.randint(1, 3)]]
+            s1 = [p, q]
+            s2 = [p + [[end + rng.choice([1, 2]), -rng.randint(2, 6)]], q + [[end + 4, -rng.randint(1, 3)]]]
+            out.append({'f': f, 'nv': 2, 'sigs': s1, 'sigs2': s2, 'n': 3})
         return out
 
     def normalize(self, c):
@@ -445,6 +459,27 @@ class D07(Extra):
         for (f, nv) in items:
             nv = need_vars(f, nv)
             out.append({'f': f, 'nv': nv, 'sigs': gen_sigs(rng, nv, minn=1), 'n': 0})
+        # bounded until / since with a positive lower bound: the left operand holds on [t, t+a], dips, and the right operand
+        # becomes true inside [t+a, t+b] only after the dip (mirror image for since): the verdict is 'violated'
+        X, Y = ('pred', 'geq', ('var', 0), ('const', 0)), ('pred', 'geq', ('var', 1), ('const', 0))
+        for _ in range(n // 5):
+            a = rng.choice([2, 4])
+            b = a + rng.choice([2, 4, 6])
+            d = a + rng.choice([1, 2, 3])
+            w = rng.choice([1, 2])
+            r = d + w + rng.choice([0, 1])
+            end = r + rng.choice([6, 8, 12])
+            p = [[0, rng.randint(1, 4)], [d, -rng.randint(1, 4)], [d + w, rng.randint(1, 4)], [end, 1]]
+            q = [[0, -rng.randint(1, 3)], [r, rng.randint(1, 4)], [r + 2, -rng.randint(1, 3)], [end, -1]]
+            if rng.random() < 0.5:
+                out.append({'f': ('untilt', a, b, X, Y), 'nv': 2, 'sigs': [p, q], 'n': 0})
+            else:
+                # mirrored in time around `end`
+                mp = [[end - t2, v] for (t1, v), (t2, _) in zip(p, p[1:])][::-1]
+                mq = [[end - t2, v] for (t1, v), (t2, _) in zip(q, q[1:])][::-1]
+                mp = [[0, mp[0][1]]] + mp[1:] if mp and mp[0][0] != 0 else mp
+                mq = [[0, mq[0][1]]] + mq[1:] if mq and mq[0][0] != 0 else mq
+                out.append({'f': ('sincet', a, b, X, Y), 'nv': 2, 'sigs': [mp + [[end + 4, 1]], mq + [[end + 4, -1]]], 'n': 0})
         return out
 
     def model_lines(self, c):
@@ -494,7 +529,8 @@ class D07(Extra):
 class D12(Extra):
     RULE = ('dense-time modular programs (1-3 named sub-specifications): after dense offline evaluate() and (past-time programs) dense online update(), get_value of every '
             'assertion / sub-specification name must be exactly the result of a stand-alone specification of the inlined formula on the same data, and get_value of '
-            'every variable the supplied samples')
+            'every variable the supplied samples; online programs are also fed in two update() batches per variable (the second often starting with the '
+            'last sample of the first), get_value read after each update')
 
     def gen(self, rng, tier):
         from harness.modular import decompose
@@ -509,9 +545,39 @@ class D12(Extra):
             if not subs:
                 continue
             nv = need_vars(f, nv)
-            out.append({'f': f, 'nv': nv, 'sigs': gen_sigs(rng, nv, minn=1), 'subs': [[nm, b, s_] for (nm, b, s_) in subs], 'main': main,
-                        'style': rng.choice(['add_sub_spec', 'one_text']), 'fkey': fml.to_sx(f), 'n': 0})
+            c = {'f': f, 'nv': nv, 'sigs': gen_sigs(rng, nv, minn=1), 'subs': [[nm, b, s_] for (nm, b, s_) in subs], 'main': main,
+                 'style': rng.choice(['add_sub_spec', 'one_text']), 'fkey': fml.to_sx(f), 'n': 0}
+            if not fml.has_future(f) and rng.random() < 0.6:
+                # online: the data in two update() batches per variable, the second one often starting with the last sample of the first
+                c['cut'] = [rng.random(), rng.random() < 0.6]
+            out.append(c)
+        # an operand that is a variable or a named sub-specification directly below a bounded past operator, fed in two batches
+        X = ('var', 0)
+        for _ in range(n // 5):
+            a = rng.choice([0, 0, 2])
+            body = (rng.choice(['histt', 'oncet']), a, a + rng.choice([2, 4]), ('ref', 'sp1'))
+            sub = rng.choice([('a1', 'neg', X), ('pred', 'geq', X, ('const', 1)), ('once', X)])
+            mainf = rng.choice([body, ('or', ('ref', 'sp1'), body), ('and', body, ('pred', 'leq', X, ('const', 3)))])
+            inl = self._inline(mainf, sub)
+            out.append({'f': inl, 'nv': 1, 'sigs': gen_sigs(rng, 1, minn=3), 'subs': [['sp1', sub, sub]], 'main': mainf,
+                        'style': rng.choice(['add_sub_spec', 'one_text']), 'fkey': fml.to_sx(inl), 'n': 0, 'cut': [rng.random(), True]})
         return out
+
+    @staticmethod
+    def _inline(f, sub):
+        if f[0] == 'ref':
+            return sub
+        return fml.rebuild(f, [D12._inline(x, sub) for x in fml.children(f)])
+
+    def batches(self, c, i):
+        """the samples of variable i cut into the update() batches of the case"""
+        smp = dense.to_impl(c['sigs'][i])
+        if not c.get('cut') or len(smp) < 2:
+            return [smp]
+        frac, overlap = c['cut']
+        k = 1 + int(frac * (len(smp) - 1))
+        k = min(max(k, 1), len(smp) - 1)
+        return [smp[:k], smp[(k - 1 if overlap else k):]]
 
     def normalize(self, c):
         from harness import shrink
@@ -547,10 +613,15 @@ class D12(Extra):
             su = fml.fvars(s_)
             out.append(dict(base, monitor='dense-offline', spec='out = ' + text(s_), calls=[['evaluate', [[fml.VARS[i], dense.to_impl(c['sigs'][i])] for i in su]]]))
         if self.online(c):
-            out.append(dict(base, monitor='dense-online', calls=[['update', data]] + gv, **self.modular(c)))
+            nb = max(len(self.batches(c, i)) for i in used)
+            bat = lambda i, ph: (self.batches(c, i) + [[]])[ph] if len(self.batches(c, i)) > ph else []
+            calls = []
+            for ph in range(nb):
+                calls += [['update', [[fml.VARS[i], bat(i, ph)] for i in used]]] + gv
+            out.append(dict(base, monitor='dense-online', calls=calls, **self.modular(c)))
             for (nm, s_) in names:
                 su = fml.fvars(s_)
-                out.append(dict(base, monitor='dense-online', spec='out = ' + text(s_), calls=[['update', [[fml.VARS[i], dense.to_impl(c['sigs'][i])] for i in su]]]))
+                out.append(dict(base, monitor='dense-online', spec='out = ' + text(s_), calls=[['update', [[fml.VARS[i], bat(i, ph)] for i in su]] for ph in range(nb)]))
         return out
 
     def judge(self, c, mlines, ires):
@@ -566,20 +637,36 @@ class D12(Extra):
                 return 'violation', dict(det, monitor=mon, observed=mod['setup'])
             if any(a['setup']['status'] != 'ok' or a['calls'][0]['status'] != 'ok' for a in alone):
                 return 'dropped', None       # the stand-alone specification itself fails (C04/C05/C17 territory)
-            if mod['calls'][0]['status'] != 'ok':
-                if mon == 'dense-online' and D06().const_binary(c['f']):
-                    continue
-                return 'violation', dict(det, monitor=mon, expected='the modular program evaluates (its stand-alone parts do)', observed=mod['calls'][0])
-            for j, (nm, s_) in enumerate(names):
-                r = mod['calls'][1 + j]
-                exp = alone[j]['calls'][0]['value']
-                if r['status'] != 'ok' or r['value'] != exp:
-                    return 'violation', dict(det, monitor=mon, name=nm, formula='out = ' + text(s_), expected={'stand-alone': exp}, observed=r)
-            for j, i in enumerate(used):
-                r = mod['calls'][1 + k + j]
-                exp = json.loads(json.dumps(dense.to_impl(c['sigs'][i])))
-                if r['status'] != 'ok' or [[float(a), float(b)] for a, b in r['value']] != exp:
-                    return 'violation', dict(det, monitor=mon, name=fml.VARS[i], expected={'supplied samples': exp}, observed=r)
+            nph = 1
+            if mon == 'dense-online':
+                nph = max(len(self.batches(c, i)) for i in used)
+                if any(len(a['calls']) != nph or any(x['status'] != 'ok' for x in a['calls']) for a in alone):
+                    return 'dropped', None
+            stride = 1 + k + len(used)
+            skip = False
+            for ph in range(nph):
+                u = mod['calls'][ph * stride]
+                if u['status'] != 'ok':
+                    if mon == 'dense-online' and D06().const_binary(c['f']):
+                        skip = True
+                        break
+                    return 'violation', dict(det, monitor=mon, phase=ph, expected='the modular program evaluates (its stand-alone parts do)', observed=u)
+                for j, (nm, s_) in enumerate(names):
+                    r = mod['calls'][ph * stride + 1 + j]
+                    exp = alone[j]['calls'][ph]['value']
+                    if r['status'] != 'ok' or r['value'] != exp:
+                        return 'violation', dict(det, monitor=mon, update=ph, name=nm, formula='out = ' + text(s_), expected={'stand-alone': exp}, observed=r)
+                for j, i in enumerate(used):
+                    r = mod['calls'][ph * stride + 1 + k + j]
+                    if mon == 'dense-online':
+                        bs = self.batches(c, i)
+                        exp = json.loads(json.dumps(bs[ph] if ph < len(bs) else []))
+                    else:
+                        exp = json.loads(json.dumps(dense.to_impl(c['sigs'][i])))
+                    if r['status'] != 'ok' or [[float(a), float(b)] for a, b in (r['value'] or [])] != exp:
+                        return 'violation', dict(det, monitor=mon, update=ph, name=fml.VARS[i], expected={'supplied samples': exp}, observed=r)
+            if skip:
+                continue
         return 'ok', None
 
     def key(self, c):
